@@ -8,12 +8,12 @@ CORE = "MC_core.tla"
 
 # model-checking configurations: name -> (quick MaxDepth, thorough MaxDepth)
 MC_DEPTH = {
-    "MC_relay": (5, 7), "MC_relayB": (8, 10), "MC_time": (8, 10), "MC_iso": (5, 6), "MC_v6": (6, 7), "MC_mtu": (4, 5), "MC_resv": (5, 6), "MC_stream": (6, 7), "MC_stream2": (6, 7), "MC_quota": (6, 7),
+    "MC_relay": (5, 7), "MC_relayB": (8, 10), "MC_time": (8, 10), "MC_iso": (5, 6), "MC_v6": (6, 7), "MC_mtu": (4, 5), "MC_resv": (5, 6), "MC_stream": (6, 7), "MC_stream2": (6, 7), "MC_veto": (8, 10), "MC_quota": (6, 7),
 }
 # generation slices: name -> (quick MaxDepth, thorough MaxDepth)
 GEN_DEPTH = {
     "GEN_relayA": (6, 7), "GEN_relayB": (6, 7), "GEN_relayD": (4, 5), "GEN_time": (7, 8), "GEN_users": (5, 6),
-    "GEN_iso": (4, 5), "GEN_v6": (4, 5), "GEN_v6strict": (5, 6), "GEN_mtu": (4, 4), "GEN_mtu1200": (4, 4), "GEN_resv": (4, 5), "GEN_recycle": (7, 8), "GEN_chan3": (8, 9), "GEN_stream": (5, 6), "GEN_stream2": (5, 6), "GEN_quota": (5, 6),
+    "GEN_iso": (4, 5), "GEN_v6": (4, 5), "GEN_v6strict": (5, 6), "GEN_mtu": (4, 4), "GEN_mtu1200": (4, 4), "GEN_resv": (4, 5), "GEN_recycle": (7, 8), "GEN_chan3": (8, 9), "GEN_stream": (5, 6), "GEN_stream2": (5, 6), "GEN_veto": (6, 7), "GEN_quota": (5, 6),
 }
 
 
@@ -275,7 +275,7 @@ def c14_run(ctx):
 
 PROPS = {
     "C01": dict(title="client data leaves only toward authorised peers", level="model_checking",
-                run=with_ledger_rt(with_server_trace(core_run(["MC_relay", "MC_relayB", "MC_tcp", "MC_iso"], ["GEN_relayA", "GEN_relayB", "GEN_relayD", "GEN_v6", "GEN_tcpB", "GEN_iso", "GEN_stream"]))),
+                run=with_ledger_rt(with_server_trace(core_run(["MC_relay", "MC_relayB", "MC_tcp", "MC_iso", "MC_veto"], ["GEN_relayA", "GEN_relayB", "GEN_relayD", "GEN_v6", "GEN_tcpB", "GEN_iso", "GEN_stream", "GEN_veto"]))),
                 assumptions=BASE_ASSUME + ["the TCP connect target clause is decided on TurnTCP.tla (Connect to a vetoed peer: 403, no connection)"]),
     "C02": dict(title="only authorised peers reach the client", level="model_checking",
                 run=with_ledger_rt(with_server_trace(core_run(["MC_relay", "MC_relayB", "MC_v6", "MC_tcp"], ["GEN_relayA", "GEN_relayB", "GEN_relayD", "GEN_v6", "GEN_tcpA", "GEN_recycle"]))),
